@@ -47,6 +47,18 @@ def isinstance_classes(test: ast.AST, var_attr: str) -> Optional[List[ast.AST]]:
     return None
 
 
+MODULE_TUPLES: Dict[str, List[ast.AST]] = {}
+
+
+def _class_exprs(t: ast.AST) -> List[ast.AST]:
+    """Class expressions of an isinstance() second argument; module-level tuple constants are expanded."""
+    if isinstance(t, ast.Tuple):
+        return list(t.elts)
+    if isinstance(t, ast.Name) and t.id in MODULE_TUPLES:
+        return list(MODULE_TUPLES[t.id])
+    return [t]
+
+
 def find_isinstance_on_op(test: ast.AST) -> List[Tuple[str, List[ast.AST]]]:
     """All ``isinstance(X.op, T)`` sub-tests in *test*: (X, class exprs)."""
     out = []
@@ -54,13 +66,18 @@ def find_isinstance_on_op(test: ast.AST) -> List[Tuple[str, List[ast.AST]]]:
         if isinstance(n, ast.Call) and call_attr(n) == "isinstance" and len(n.args) == 2:
             d = dotted_name(n.args[0])
             if d and d.endswith(".op"):
-                t = n.args[1]
-                out.append((d[: -len(".op")], list(t.elts) if isinstance(t, ast.Tuple) else [t]))
+                out.append((d[: -len(".op")], _class_exprs(n.args[1])))
     return out
 
 
 def run(repo: Repo, R: Report) -> None:
     fn = repo.func(SEM, "_dump_ast_commutative")
+    MODULE_TUPLES.clear()
+    for st in repo.module(SEM).tree.body:
+        if isinstance(st, (ast.Assign, ast.AnnAssign)) and isinstance(getattr(st, "value", None), (ast.Tuple, ast.Set, ast.List)):
+            t = st.targets[0] if isinstance(st, ast.Assign) else st.target
+            if isinstance(t, ast.Name):
+                MODULE_TUPLES[t.id] = list(st.value.elts)
     R.assume(
         "over numbers in exact arithmetic + and * are associative and commutative and no other binary operator of the grammar is",
         "ast.dump(tree, include_attributes=False) is injective on trees modulo source positions",
